@@ -8,7 +8,7 @@ set -u
 ID=$1; V=$2; shift 2; EXTRA="$@"
 # round 2: SEED_ROUND=2 reads /tmp/wt2-<Cxx>/SEEDED/<a|b> and stores it as seeded/<Cxx>-<c|d>
 # round 3: /tmp/wt3-<Cxx>, stored as <Cxx>-<e|f>
-if [ "${SEED_ROUND:-1}" = 2 ]; then WT=/tmp/wt2-$ID; DV=$(echo $V | tr ab cd); elif [ "${SEED_ROUND:-1}" = 3 ]; then WT=/tmp/wt3-$ID; DV=$(echo $V | tr ab ef); elif [ "${SEED_ROUND:-1}" = 4 ]; then WT=/tmp/wt4-$ID; DV=$(echo $V | tr ab gh); elif [ "${SEED_ROUND:-1}" = 5 ]; then WT=/tmp/wt5-$ID; DV=$(echo $V | tr ab gh); elif [ "${SEED_ROUND:-1}" = 6 ]; then WT=/tmp/wt6-$ID; DV=$(echo $V | tr ab ij); elif [ "${SEED_ROUND:-1}" = 7 ]; then WT=/tmp/wt7-$ID; DV=$(echo $V | tr ab kl); elif [ "${SEED_ROUND:-1}" = 8 ]; then WT=/tmp/wt8-$ID; DV=$(echo $V | tr ab mn); elif [ "${SEED_ROUND:-1}" = 9 ]; then WT=/tmp/wt9-$ID; DV=$(echo $V | tr ab op); else WT=/tmp/wt-$ID; DV=$V; fi
+if [ "${SEED_ROUND:-1}" = 2 ]; then WT=/tmp/wt2-$ID; DV=$(echo $V | tr ab cd); elif [ "${SEED_ROUND:-1}" = 3 ]; then WT=/tmp/wt3-$ID; DV=$(echo $V | tr ab ef); elif [ "${SEED_ROUND:-1}" = 4 ]; then WT=/tmp/wt4-$ID; DV=$(echo $V | tr ab gh); elif [ "${SEED_ROUND:-1}" = 5 ]; then WT=/tmp/wt5-$ID; DV=$(echo $V | tr ab gh); elif [ "${SEED_ROUND:-1}" = 6 ]; then WT=/tmp/wt6-$ID; DV=$(echo $V | tr ab ij); elif [ "${SEED_ROUND:-1}" = 7 ]; then WT=/tmp/wt7-$ID; DV=$(echo $V | tr ab kl); elif [ "${SEED_ROUND:-1}" = 8 ]; then WT=/tmp/wt8-$ID; DV=$(echo $V | tr ab mn); elif [ "${SEED_ROUND:-1}" = 9 ]; then WT=/tmp/wt9-$ID; DV=$(echo $V | tr ab op); elif [ "${SEED_ROUND:-1}" = 10 ]; then WT=/tmp/wt10-$ID; DV=$(echo $V | tr ab qr); else WT=/tmp/wt-$ID; DV=$V; fi
 SRC=$WT/SEEDED/$V; DST=/verif/seeded/$ID-$DV
 mkdir -p $DST
 if [ -d $SRC ]; then cp $SRC/patch.diff $DST/patch.diff; cp $SRC/notes.md $DST/notes.md 2>/dev/null; DEMO=$(ls $SRC | grep -iE '^demo\.(rs|py|sh)$' | head -1); cp $SRC/$DEMO $DST/$DEMO; else DEMO=$(ls $DST | grep -i '^demo\.' | head -1); fi
